@@ -472,7 +472,14 @@ impl Prop for C04 {
                     let mut samples = v1::Samples::default();
                     let mut e = v1::samples::SamplesEntry::default();
                     e.state = Some(v1_state(state));
-                    e.ids = vec![4, 9];
+                    // several sample IDs share the state, in any order (IDs are labels, not positions)
+                    e.ids = match case.hash_seed % 4 {
+                        0 => vec![4, 9],
+                        1 => vec![9, 4],
+                        2 => vec![u64::MAX, 4, 0],
+                        _ => vec![7, 4, 5, 6],
+                    };
+                    let sample_ids = e.ids.clone();
                     samples.entries.push(e);
                     match (x.sut(|| cur.evaluate_samples(&samples)), &reference) {
                         (Err(p), _) => x.violate("C04:panic", format!("evaluate_samples panicked: {p}")),
@@ -486,6 +493,22 @@ impl Prop for C04 {
                                 let got = ss.decision_variables.iter().find(|d| d.decision_variable.as_ref().map(|v| v.id) == Some(*k)).and_then(|d| d.samples.as_ref()).and_then(|sv| sv.entries.iter().find(|e| e.ids.contains(&4)).map(|e| e.value));
                                 if got != Some(want) {
                                     x.violate("C04:dependencies:wrong-value", format!("order {:?}: dependent variable {k} in the sample set: expected {want} got {:?}", order, got));
+                                }
+                            }
+                            // the same report read sample by sample
+                            for sid in &sample_ids {
+                                match x.sut(|| ss.get(*sid)) {
+                                    Err(p) => x.violate("C04:panic", format!("SampleSet::get panicked: {p}")),
+                                    Ok(Err(e)) => x.violate("C04:dependencies:sample-unreadable", format!("order {:?}: sample {sid} of {:?} cannot be read back from the evaluated sample set: {e:#}", order, sample_ids)),
+                                    Ok(Ok(sol)) => {
+                                        for (k, _) in &inst.deps {
+                                            let want = fx_f64(r.state[k]).expect("reference model");
+                                            let got = sol.state.as_ref().and_then(|s| s.entries.get(k)).copied();
+                                            if got != Some(want) {
+                                                x.violate("C04:dependencies:wrong-value", format!("order {:?}: dependent variable {k} of sample {sid}: expected {want} got {:?}", order, got));
+                                            }
+                                        }
+                                    }
                                 }
                             }
                         }
